@@ -247,3 +247,39 @@ def finalize():
         if pid not in META and pid not in NOT_APPLICABLE:
             NOT_APPLICABLE[pid] = ('check not built yet (build in progress, DESIGN.md §8); the property will be claimed '
                                    'through its structural clauses once its rules are implemented')
+
+
+# ---- additions after rounds 5 and 6 (rules that now decide a clause over cases / paths instead of matching a statement shape)
+_ADD = {
+    'C01': ' Hand-written searches are decided as linear scans (complete exactly when start, range test and step are exact); removal by position '
+           'only for a found scan result; no container of the event-list classes lives in a class body and is mutated through instances.',
+    'C02': ' The typestate treats `event is None` after pop_first() as "nothing popped"; shared class-level state of the event-list / simulator classes is excluded (R1.7).',
+    'C03': ' The horizon is decided by walking the flow graph of _run for each of the 12 cases from the entry and from every pop_first() to the next '
+           'pop_first() or the end of the run (independent of how the test is spelled: one if, a chain, predicate helpers, a generator, a walrus loop head).',
+    'C04': ' Bounds stored by the commands are evaluated under "the parameter is a time" (default-horizon resolution by None test is followed; a falsy-zero '
+           'test is reported). TIME_CHANGED sites, wake-up order and the monotone clock are shared rules with C02/C03/C07.',
+    'C05': ' The strategy consulted by the failure handler is discovered (field or field of a holder object); the setter must store its argument there on every '
+           'accepted path; from the execution of an event (normal or failing) no pop_first() is reachable without a test of the run state; holder objects '
+           'shared through a module-level default and changed in place are reported.',
+    'C06': ' END_REPLICATION is announced last (states recorded first) also when the announcement goes through a signalling helper.',
+    'C07': ' A pause may not lose or repeat an event (typestate rule shared with C02); memoised listener-list copies are accepted only with a proved upkeep (R8.1).',
+    'C08': ' Delivery over a memoised copy of the listener list is accepted iff every store into the memo is the copy just made, every change of a listener list '
+           'drops the entry before any notification, and stored copies are never changed in place; payload checks are located by evaluating their guards, not by nesting.',
+    'C09': ' The NaN structure is extracted twice: for positive variance and for all-equal observations (mean, variance, stdev, confidence interval stay defined; '
+           'skewness and kurtosis are NaN for every n).',
+    'C10': ' register() of the time-weighted tally is compared with its specification case by case (active x {no observation yet, before, equal, after}) on path '
+           'summaries (E10), independent of statement order; refusals inside called methods are discharged only when the abstract interpreter, in type-exact mode, '
+           'cannot reach them from the same entry point.',
+    'C11': ' Publication loops over a constant table of (event type, query) rows are unrolled before the publication rule is applied.',
+    'C12': ' A caller-given seed is never replaced: every assignment that computes a seed is unreachable for seed 0 and for a non-zero seed (aliases included).',
+    'C14': ' List-valued fields are abstracted by the hull of their elements; a container in a class body is reported only when some method changes it in place.',
+    'C15': ' cdf/inverse compositions are evaluated through the locals on the return path; the Gamma acceptance step is bounded by a structural lemma on the '
+           'definition DAG instead of a text-keyed axiom.',
+    'C16': ' Signature combination is recognised in functional (map / zip) and imperative form (fresh copy + loop adding or subtracting exponents); combining into '
+           'the operand\'s own list is reported. Comparisons are decided by cases (<, ==, >, unordered) so that a three-way helper by difference is accepted only with '
+           'the equality guard that IEEE arithmetic requires (inf - inf).',
+    'C17': ' Comparisons of compatible quantities are decided by cases as in C16; operators written as the negation of a sibling are expanded.',
+    'C18': ' Stores into parameter objects count as effects for refuse-before-effect.',
+}
+for _p, _t in _ADD.items():
+    META[_p]['text'] = META[_p]['text'] + _t
